@@ -433,7 +433,7 @@ def run_engine_a(prop, tier, seed, hs=None, jobs=16):
     regen()
     if hs is None:
         hs = catalog.select(prop, tier)
-    ht = 420 if tier == "quick" else 1800
+    ht = 600 if tier == "quick" else 1800
     res, wall = kani_run(hs, f"{prop}-{tier}", jobs=jobs, harness_timeout=ht)
     return res, wall
 
